@@ -4,7 +4,7 @@ check_dump(path, cppcheckdata_module) -> (stats, problems)
    problems: list of (key, text); key is a short class name used for known-finding classification:
      xml-malformed            strict parser (expat) rejects the file
      addon-load               addons/cppcheckdata.py raises while loading / resolving ids
-     dup-id                   two elements of one <dump> share an id
+     dup-id:<tags>            two elements of one <dump> share an id (any element that carries an `id` attribute, found generically)
      dangling:<elem>.<attr>   a reference attribute names no element of the required kind in the same <dump>
      link-*                   link symmetry / kind / nesting broken
      ast-*                    AST parent/operand agreement, op1 == op2, cycle
@@ -56,8 +56,7 @@ def collect(dump_el):
         if i in NULL_IDS:
             problems.append(("null-id", "%s has id %r" % (desc, i)))
             return
-        if i in allids:
-            problems.append(("dup-id", "id %s defined by %s and by %s" % (i, allids[i], desc)))
+        # uniqueness of ids is decided by check_generic (every element kind, not only the ones listed here)
         allids[i] = desc
         ids[kind][i] = el
 
@@ -232,7 +231,60 @@ def check_addon_graph(cfg, ids, order, pos):
     return problems
 
 
-def check_dump(path, cppcheckdata=None):
+# an element with an `id` attribute defines that id, except where the attribute is itself a reference / a number
+ID_IS_NOT_A_DEFINITION = {"varlist", "template-varid-usage"}
+
+
+import re as _re
+PTR = _re.compile(r"^[0-9a-f]{7,16}$")
+
+
+def check_generic(dump_el, ref_attrs):
+    """Kind-independent pass: EVERY element of the <dump> block that carries an `id` attribute defines an id (whatever its tag);
+    ids must be unique in the block; every attribute whose name the dump writers emit through id_string (ref_attrs, discovered from
+    the source by the translator) must name exactly one defined element, of the kind REFS prescribes when it knows the pair."""
+    problems, defs, n = [], {}, 0
+
+    def walk(el, parent):
+        if el.get("id") is not None and parent not in ID_IS_NOT_A_DEFINITION:
+            i = el.get("id")
+            if i in NULL_IDS:
+                problems.append(("null-id", "<%s> has id %r" % (el.tag, i)))
+            else:
+                defs.setdefault(i, []).append(el.tag)
+        for ch in el:
+            walk(ch, el.tag)
+    walk(dump_el, None)
+    for i, tags in defs.items():
+        if len(tags) > 1:
+            problems.append(("dup-id:" + "+".join(sorted(set(tags))), "id %s identifies %d elements (%s) of the <dump> block" % (i, len(tags), ", ".join(tags))))
+
+    def refs(el, parent):
+        nonlocal n
+        for a, v in el.attrib.items():
+            ek = "varlistvar" if parent == "varlist" else el.tag
+            if (ek, a) in REFS:
+                isref = True
+            else:
+                # an attribute name the writers emit through id_string on an element / attribute pair REFS does not list: a
+                # reference when the value looks like a pointer id (`type="name"`, `type="Global"` are literals with the same name)
+                isref = a in ref_attrs and a != "id" and PTR.match(v) is not None
+            if not isref or v in NULL_IDS:
+                continue
+            n += 1
+            if v not in defs:
+                problems.append(("dangling:%s.%s" % (ek, a), "<%s %s=%s> names no element of this configuration" % (el.tag, a, v)))
+            else:
+                want = REFS.get((ek, a))
+                if want is not None and want not in defs[v]:
+                    problems.append(("wrong-kind:%s.%s" % (ek, a), "<%s %s=%s> names a <%s>, expected <%s>" % (el.tag, a, v, defs[v][0], want)))
+        for ch in el:
+            refs(ch, el.tag)
+    refs(dump_el, None)
+    return n, problems
+
+
+def check_dump(path, cppcheckdata=None, ref_attrs=None):
     stats = dict(configs=0, tokens=0, refs=0, links=0, ast_edges=0)
     err = strict_parse(path)
     if err:
@@ -244,6 +296,9 @@ def check_dump(path, cppcheckdata=None):
         if d.tag != "dump":
             continue
         st, pr, ctxt = check_cfg(d)
+        ng, pg = check_generic(d, ref_attrs if ref_attrs is not None else set(a for (_e, a) in REFS))
+        pr += pg
+        stats["generic_refs"] = stats.get("generic_refs", 0) + ng
         stats["configs"] += 1
         for k in ("tokens", "refs", "links", "ast_edges"):
             stats[k] += st[k]
